@@ -39,12 +39,17 @@ def run(check):
         items.append((case, sem, g))
     # dedicated workloads: many equal steps finishing at the same moment, and many loop items failing at the same moment
     from ..model import Expr, In, Ref, Program, Step
-    for j in range(check.pick(80, 400)):
+    for j in range(check.pick(240, 800)):
         rng = random.Random(derive_seed(check.seed, "c17-sim", j))
-        if j % 2 == 0:
-            steps, outs = gen.shape_fan_in(rng, rng.choice([8, 12, 16]))
+        if j % 4 != 1:
+            k = rng.choice([2, 3, 4, 8, 12, 16])
+            steps, outs = gen.shape_fan_in(rng, k)
             prog = Program(steps, outs, gen.BASE_INPUT)
-            g = {"program": prog, "scripts": gen.make_scripts(steps, {}), "input": {"tag": "T"}, "shape": "fan_in-simultaneous", "family": "simultaneous-completion", "outcome": {}}
+            scripts = gen.make_scripts(steps, {})
+            for st in steps:
+                scripts[st.src]["exec"] = {"outcome": "success", "gate": "go"}  # all executions are released together
+            g = {"program": prog, "scripts": scripts, "input": {"tag": "T"}, "shape": "fan_in-simultaneous", "family": "simultaneous-completion", "outcome": {},
+                 "triggers": [{"kind": "exec-start", "src": "", "nth": k, "action": "open:go"}]}
         else:
             sub = gen.sub_program("sub.yaml", 1)
             fe = Step("loop", "foreach", sub=sub, items=Expr(In("items")), parallelism=rng.choice([4, 16]))
@@ -53,7 +58,9 @@ def run(check):
             scripts["sub_w0"]["exec"] = {"outcome": rng.choice(["crash", "error"])}
             g = {"program": prog, "scripts": scripts, "input": {"tag": "T", "items": [{"tag": "i%d" % k} for k in range(16)]}, "shape": "foreach-all-items-fail", "family": "loop-failing-items", "outcome": {}}
         case, sem = runfam.build_case("c17-s%04d" % j, g, no_events=True)
-        if j % 4 == 0:
+        if g.get("triggers"):
+            case["triggers"] = g["triggers"]
+        elif j % 8 == 1:
             case["runs"] = [{"input": g["input"], "parallel": True, "tag": "r%d" % q} for q in range(3)]
         items.append((case, sem, g))
     stats = {"families": {}}
